@@ -69,6 +69,17 @@ var c14FieldLines = []string{
 	"Tagged string `json:\"a,omitempty,string\" validate:\"required,oneof='a b' c\"`",
 	"WeirdTag int `validate:\"gt=,lt=abc,min=-1,max=1e9\"`",
 	"BadTag string `json:name validate`",
+	// struct tags are free text to the compiler: anything may be in there
+	"Unterminated string `json:\"name\" validate:\"required`",
+	"UntermJSON string `validate:\"required\" json:\"name`",
+	"OnlyQuote string `json:\"`",
+	"EmptyKey string `:\"x\" json:\"k\"`",
+	"NoValue string `json: validate:`",
+	"EscQuote string `json:\"a\\\"b\" validate:\"oneof=x\\\"y\"`",
+	"Blank string `   `",
+	"DashComma string `json:\"-,\" validate:\",\"`",
+	"KeyOnly string `validate`",
+	"TwoColons string `json::\"x\" validate:\"min=1\":`",
 	"_ int",
 	"Ünï string",
 }
